@@ -5,7 +5,7 @@ package detector
 const vGood5 = "3/1/2/3/-1"
 const vGood4 = "3/-1/1/2"
 
-// VerifC15OverlapExt: case side (which argument is malformed), arr (array form).
+// VerifC15OverlapExt: case side (which argument is malformed; 2 = the same malformed text as both), arr (array form).
 func VerifC15OverlapExt() {
 	s := vNondetString("s", 7)
 	side := vCase("side")
@@ -16,6 +16,9 @@ func VerifC15OverlapExt() {
 	a, b := s, vGood5
 	if side == 1 {
 		a, b = vGood5, s
+	}
+	if side == 2 { // the same malformed text on both sides
+		a, b = s, s
 	}
 	var got bool
 	var err error
@@ -47,6 +50,9 @@ func VerifC15OverlapSpatial() {
 	a, b := s, vGood4
 	if side == 1 {
 		a, b = vGood4, s
+	}
+	if side == 2 {
+		a, b = s, s
 	}
 	var got bool
 	var err error
